@@ -56,9 +56,16 @@ def make_tables(rng, qgram):
         order = list(range(n))
         rng.shuffle(order)
         vals = [vals[i] for i in order]
-        keys = rng.sample(range(1000), n) if rng.random() < 0.6 else ['%s%d' % (side, k) for k in rng.sample(range(100), n)]
+        r = rng.random()
+        if r < 0.45:
+            keys = rng.sample(range(1000), n)
+        elif r < 0.6:
+            keys = [2 ** 53 + 1 + 2 * k for k in rng.sample(range(1000), n)]   # not representable as float64
+        else:
+            keys = ['%s%d' % (side, k) for k in rng.sample(range(100), n)]
         extras = {
-            side + 'int': ([rng.randint(-9, 9) for _ in range(n)], 'int64'),
+            side + 'int': ([rng.choice([rng.randint(-9, 9), 2 ** 53 + 1, -(2 ** 60) - 1, 2 ** 62 + 3])
+                            for _ in range(n)], 'int64'),
             side + 'flt': ([gen.NAN if rng.random() < 0.3 else rng.choice([0.5, 2.0, -1.25]) for _ in range(n)], 'float64'),
             side + 'bool': ([rng.random() < 0.5 for _ in range(n)], 'bool'),
             side + 'str': (['s%d' % rng.randint(0, 3) for _ in range(n)], 'str'),
